@@ -206,10 +206,53 @@ class Facts:
         return f
 
     # -- deciding
-    def decide_atom(self, atom):
+    def decide_atom(self, atom, _depth=0):
         """True/False/None"""
         if atom in self.atoms:
             return self.atoms[atom]
+        d = self._decide_atom(atom)
+        if d is None and atom[0] in ("lt", "eq") and _depth < 2:
+            # the same comparison in normal form ((x - y) < 1 is x == y, x == min(x, y) is x <= y, ...)
+            a2, p2 = canon_cmp("Lt" if atom[0] == "lt" else "Eq", atom[1], atom[2])
+            if a2 != atom:
+                d2 = self.atoms.get(a2)
+                if d2 is None:
+                    d2 = self._decide_atom(a2)
+                if d2 is not None:
+                    d = d2 if p2 else (not d2)
+        if d is None and _depth == 0 and atom[0] in ("lt", "eq"):
+            # resolve min/max terms whose argument order the facts decide: max(thr, 1) is thr once thr != 0 is known
+            a2 = self._resolve_minmax(atom)
+            if a2 != atom:
+                if a2[0] == "eq":
+                    a2 = _eq_atom(a2[1], a2[2])
+                d = self.decide_atom(a2, 1)
+            if d is None:
+                # ... and the other way round: a stored fact mentions the min/max, the query its resolved form
+                for known, pol in self.order:
+                    if known[0] == atom[0] and any(isinstance(x, tuple) and x and x[0] in ("min", "max") for x in subterms(known)):
+                        k2 = self._resolve_minmax(known)
+                        if k2[0] == "eq":
+                            k2 = _eq_atom(k2[1], k2[2])
+                        if k2 == atom:
+                            return pol
+        return d
+
+    def _resolve_minmax(self, t):
+        if not isinstance(t, tuple):
+            return t
+        if len(t) == 3 and t[0] in ("min", "max") and isinstance(t[1], tuple) and isinstance(t[2], tuple):
+            x, y = self._resolve_minmax(t[1]), self._resolve_minmax(t[2])
+            lt_xy = self.decide_atom(("lt", x, y), 1)
+            lt_yx = self.decide_atom(("lt", y, x), 1)
+            if lt_xy is True or lt_yx is False:       # x <= y
+                return x if t[0] == "min" else y
+            if lt_yx is True or lt_xy is False:       # y <= x
+                return y if t[0] == "min" else x
+            return (t[0], x, y)
+        return tuple(self._resolve_minmax(x) if isinstance(x, tuple) else x for x in t)
+
+    def _decide_atom(self, atom):
         k = atom[0]
         if k in ("lt", "eq"):
             a, b = atom[1], atom[2]
@@ -251,6 +294,9 @@ class Facts:
             e = self.atoms.get(_eq_atom(a, b))
             if e is True:
                 return False
+            # a <= b and a != b  =>  a < b
+            if e is False and self.atoms.get(("lt", b, a)) is False:
+                return True
             # x < 1  <=>  x == 0 (unsigned)
             if is_int(b) and b[1] == 1 and not _maybe_signed(a):
                 e0 = self.atoms.get(_eq_atom(a, Int(0)))
